@@ -413,7 +413,7 @@ def r11_7(chk):
                 hit = x.test
             if hit is not None:
                 n += 1
-                chk.violation("R11.7", key(m, q, "length default on None only"), m.loc(hit), f"`{norm(hit)[:60]}` treats a length of 0.0 as missing: (a:0.1,b:0.2,(c:0.3)x:0.0,d:0.4) is evaluated with x = 1.0")
+                chk.violation("R11.7", key(m, q, f"length default on None only: {norm(hit)[:60]}"), m.loc(hit), f"`{norm(hit)[:60]}` treats a length of 0.0 as missing: (a:0.1,b:0.2,(c:0.3)x:0.0,d:0.4) is evaluated with x = 1.0")
         sets = [c for c in walk_no_nested(fn) if isinstance(c, ast.Call) and isinstance(c.func, ast.Attribute) and c.func.attr == "set_param_rule" and c.args and norm(c.args[0]) == "'length'" and any(kw.arg == "init" for kw in c.keywords)]
         for c in sets:
             chk.ok("R11.7", key(m, q, "initial length from the tree"), m.loc(c), f"`{norm(c)[:70]}`")
